@@ -28,7 +28,7 @@ RULE = ('family = one database description (1-3 merged parts, 0-3 datasets of 0-
         'is alive; invalid descriptions are rejected. Non-trivial = a lifetime / file / '
         'mutation event happened between two requests; distinct = distinct (description, '
         'history).')
-PROBES = ['alias_only_in_later_part', 'extra_top_level_scalar_with_merge',
+PROBES = ['two_database_objects_with_common_names', 'alias_only_in_later_part', 'extra_top_level_scalar_with_merge',
           'request_after_gc_rebuilt', 'identity_while_held', 'file_removed_after_load',
           'unpickled_database_answered', 'invalid_description_rejected']
 BUDGET = {
@@ -120,7 +120,9 @@ def gen(rng, tier, index):
                     req = rng.sample(names, rng.randrange(1, len(names) + 1))
                 else:
                     req = rng.choice(pool)
-                ops.append(['get', req, rng.random() < 0.6])      # hold?
+                # hold? / which database object (a second one with the same
+                # names but different contents exists in 40% of the histories)
+                ops.append(['get', req, rng.random() < 0.6, rng.randrange(2)])
             elif r < 0.62:
                 ops.append(['drop', rng.randrange(0, 4)])
             elif r < 0.72:
@@ -133,7 +135,8 @@ def gen(rng, tier, index):
                 ops.append(['file', rng.choice(['remove', 'rewrite']), rng.randrange(len(parts))])
             else:
                 ops.append(['gc'])
-        cases.append({'parts': parts, 'invalid': invalid, 'backend': backend, 'ops': ops})
+        cases.append({'parts': parts, 'invalid': invalid, 'backend': backend, 'ops': ops,
+                      'two_dbs': rng.random() < 0.4})
     return cases
 
 
@@ -244,6 +247,26 @@ def run(case):
                     'building the database from a valid description (%d parts, alias only in a '
                     'later part: %s) raised %r' % (len(parts), later_alias_only, err))
                 return _finish(case, violations, probes, fired)
+            # second database object: same dataset / alias names, other contents
+            parts2, db2 = None, None
+            if case.get('two_dbs'):
+                parts2 = copy.deepcopy(parts)
+                for p_ in parts2:
+                    for exs in p_['datasets'].values():
+                        for ex in exs.values():
+                            ex['v'] = ex['v'] + 1000
+                src2 = copy.deepcopy(parts2)
+                if case['backend'] == 'dict':
+                    db2 = ldb.DictDatabase(*src2)
+                else:
+                    paths2 = []
+                    for i, p_ in enumerate(src2):
+                        path = os.path.join(tmp, 'other%d.json' % i)
+                        with open(path, 'w') as f:
+                            json.dump(p_, f)
+                        paths2.append(path)
+                    db2 = ldb.JsonDatabase(*paths2)
+                probes['two_database_objects_with_common_names'] = 1
             held = []           # (request, dataset object)
             last_examples = []  # python objects handed out
             active = db
@@ -253,10 +276,12 @@ def run(case):
                 if violations:
                     break
                 if op[0] == 'get':
-                    _, req, hold = op
-                    kind, exp = model_expected(parts, req)
+                    _, req, hold = op[:3]
+                    second = db2 is not None and len(op) > 3 and op[3] == 1
+                    kind, exp = model_expected(parts2 if second else parts, req)
+                    target = db2 if second else active
                     try:
-                        ds = active.get_dataset(req)
+                        ds = target.get_dataset(req)
                         got = list(ds.items()) if not isinstance(req, list) or True else None
                     except Exception as e:
                         if kind == 'error':
@@ -278,8 +303,20 @@ def run(case):
                             'get_dataset(%r) yields %s, stored content is %s'
                             % (req, W.short(g, 150), W.short(e_, 150)))
                         break
+                    req_key = (req, second) if not isinstance(req, list) else None
                     if not isinstance(req, list):
                         for r0, d0 in held:
+                            if r0 != req_key:
+                                continue
+                            if second:
+                                if d0 is ds:
+                                    probes['identity_while_held'] = 1
+                                else:
+                                    bad('not_shared', 'not_shared',
+                                        'a second request for %r built a new dataset although '
+                                        'the first one is still alive' % (req,))
+                                continue
+                            r0 = req
                             if r0 == req and d0 is not ds and active is db:
                                 bad('not_shared', 'not_shared',
                                     'a second request for %r built a new dataset although the '
@@ -289,7 +326,7 @@ def run(case):
                     if since_event:
                         fired['request_after_event'] = fired.get('request_after_event', 0) + 1
                     if hold:
-                        held.append((req, ds))
+                        held.append((req_key if req_key is not None else ('list',), ds))
                     last_examples = [v for _, v in got][:4]
                     ds = None
                 elif op[0] == 'drop':
